@@ -45,7 +45,8 @@ def parseEv (ws : List String) : Option (Nat × Ev × (Cfg → Cfg)) :=
     else if op == "tryfail" then pure (i, .tryfail, id)
     else if op == "data" then pure (i, .data, id)
     else if op == "spur" then pure (i, .spur (r == "eintr"), id)
-    else if op == "cas0" then
+    -- a weak CAS that did not fail spuriously is the same event as a strong one
+    else if op == "cas0" || op == "casw0" then
       if b != "0>1" then none else do
       let so ← (a.splitOn "/").head?
       let acq ← acqOf so
